@@ -389,6 +389,7 @@ def _sorted(ip, args, kwargs):
     key = kwargs.get("key")
     if items is not None:
         keys = [ip.call(key, [i], {}) if key is not None else i for i in items]
+        keys = [C(z3.simplify(k.i).as_long()) if isinstance(k, ZInt) and z3.is_int_value(z3.simplify(k.i)) else k for k in keys]
         if all(isinstance(k, C) for k in keys):
             order = sorted(range(len(items)), key=lambda i: keys[i].v, reverse=bool(kwargs.get("reverse", C(False)).v))
             return LList([items[i] for i in order])
